@@ -1,5 +1,6 @@
 """All proof units, in build order."""
 UNITS = [
+    ("contracts.wf_machine", "StatusLists"),
     ("contracts.wf_machine", "ProcessTaskEvent"),
     ("contracts.wf_machine", "ProcessWorkflowEvent"),
     ("contracts.task_machine", "ProcessActionEvent"),
